@@ -248,6 +248,9 @@ type Rig struct {
 	cfg      Cfg
 	mid    *Action // armed: inject this inbound message when the next outbound message passes the outgoing handlers
 	nsend  int     // application sends so far
+	// Ctx0 is the session context the application obtained BEFORE anything happened (Session.Context() right after construction):
+	// "cancels the session's context" is judged on it - an application that keeps the context it took at start-up must see the end
+	Ctx0 context.Context
 }
 
 // ParsedRequest returns an application message whose fields - header included - were populated by parsing: a message received
@@ -356,6 +359,7 @@ func NewRig(cfg Cfg) (*Rig, error) {
 		return nil, err
 	}
 	r.S.SetUnmarshaller(sharedUnmarshaller[!cfg.NonStrict])
+	r.Ctx0 = r.S.Context()
 	r.S.OnError(func(e error) {
 		r.mu.Lock()
 		r.errs = append(r.errs, e.Error())
@@ -527,7 +531,7 @@ func RunScenario(t *testing.T, sc *Scenario) (recs []interface{}, failure string
 			callErr := r.Do(&a)
 			outs, evs, _ := r.drain()
 			recs = append(recs, StepObs{K: "step", ID: sc.ID, I: i + 1, A: a, T: t0, Outs: outs,
-				Logged: r.S.IsLogged(), Ctx: r.S.Context().Err() != nil, HCtx: r.H.Context().Err() != nil,
+				Logged: r.S.IsLogged(), Ctx: r.Ctx0.Err() != nil, HCtx: r.H.Context().Err() != nil,
 				Events: evs, Err: callErr, Saves: []int{}})
 		}
 		r.Close(maxHb)
